@@ -13,6 +13,7 @@ import XlModel.Lemmas.Calc
 import XlModel.Lemmas.CalcAgree
 import XlModel.Lemmas.CalcInt
 import XlModel.CalcCheck
+import XlModel.CalcRef
 
 namespace XlModel.Props.C08
 open XlModel XlModel.Calc XlModel.Facts.C08 NumOps
@@ -1695,6 +1696,46 @@ theorem defname_examples :
     Spec.resolveName defs [114] [83, 50] = some [66] ∧
     Spec.resolveName defs [113] [83, 49] = none := by
   decide +kernel
+
+/-! ## reference resolution (`parseReference`) -/
+
+/-- clause "references resolve to the current content of the referenced cells": absolute, mixed
+and relative spellings denote the same cells — `parseReference` removes every `$` first -/
+theorem resolve_dollar_invariant (sheets : List Str) (cur ref : Str) :
+    Impl.resolveRef sheets cur (ref.filter (· ≠ 36)) = Impl.resolveRef sheets cur ref := by
+  unfold Impl.resolveRef
+  simp [List.filter_filter]
+
+theorem upByte_idem (b : Nat) : upByte (upByte b) = upByte b := by
+  unfold upByte
+  by_cases h : 97 ≤ b ∧ b ≤ 122
+  · have h2 : ¬ (97 ≤ b - 32 ∧ b - 32 ≤ 122) := by omega
+    rw [if_pos h, if_neg h2]
+  · rw [if_neg h, if_neg h]
+
+theorem upper_idem (s : Str) : upper (upper s) = upper s := by
+  simp [upper, List.map_map, Function.comp, upByte_idem]
+
+/-- the sheet part of a reference is matched without regard to (ASCII) case -/
+theorem findSheet_case (sheets : List Str) (name : Str) :
+    Impl.findSheet sheets (upper name) = Impl.findSheet sheets name := by
+  unfold Impl.findSheet
+  simp [upper_idem]
+
+/-- worked instances on the workbook [Sheet1, Sheet2, My Data]: relative / absolute / lower-case /
+sheet-qualified (any case; efp has removed the quotes) spellings of the same cell, a range given
+by opposite corners, a range across two sheets (rejected), a sheet that does not exist -/
+theorem resolve_examples :
+    Impl.resolveRef ([[83, 104, 101, 101, 116, 49], [83, 104, 101, 101, 116, 50], [77, 121, 32, 68, 97, 116, 97]] : List Str) [83, 104, 101, 101, 116, 49] [65, 49] = .ok (false, [[83, 104, 101, 101, 116, 49, 33, 65, 49]]) ∧
+    Impl.resolveRef ([[83, 104, 101, 101, 116, 49], [83, 104, 101, 101, 116, 50], [77, 121, 32, 68, 97, 116, 97]] : List Str) [83, 104, 101, 101, 116, 49] [36, 97, 36, 49] = .ok (false, [[83, 104, 101, 101, 116, 49, 33, 65, 49]]) ∧
+    Impl.resolveRef ([[83, 104, 101, 101, 116, 49], [83, 104, 101, 101, 116, 50], [77, 121, 32, 68, 97, 116, 97]] : List Str) [83, 104, 101, 101, 116, 49] [83, 72, 69, 69, 84, 50, 33, 36, 65, 36, 49] = .ok (false, [[83, 104, 101, 101, 116, 50, 33, 65, 49]]) ∧
+    Impl.resolveRef ([[83, 104, 101, 101, 116, 49], [83, 104, 101, 101, 116, 50], [77, 121, 32, 68, 97, 116, 97]] : List Str) [83, 104, 101, 101, 116, 50] [109, 121, 32, 100, 97, 116, 97, 33, 98, 50] = .ok (false, [[77, 121, 32, 68, 97, 116, 97, 33, 66, 50]]) ∧
+    Impl.resolveRef ([[83, 104, 101, 101, 116, 49], [83, 104, 101, 101, 116, 50], [77, 121, 32, 68, 97, 116, 97]] : List Str) [83, 104, 101, 101, 116, 49] [83, 104, 101, 101, 116, 50, 33, 66, 50, 58, 65, 49] =
+      .ok (true, [[83, 104, 101, 101, 116, 50, 33, 65, 49], [83, 104, 101, 101, 116, 50, 33, 66, 49], [83, 104, 101, 101, 116, 50, 33, 65, 50], [83, 104, 101, 101, 116, 50, 33, 66, 50]]) ∧
+    Impl.resolveRef ([[83, 104, 101, 101, 116, 49], [83, 104, 101, 101, 116, 50], [77, 121, 32, 68, 97, 116, 97]] : List Str) [83, 104, 101, 101, 116, 49] [83, 104, 101, 101, 116, 50, 33, 65, 49, 58, 83, 104, 101, 101, 116, 49, 33, 66, 50] = .error (.msg (.lit Impl.sInvalidRef)) ∧
+    Impl.resolveRef ([[83, 104, 101, 101, 116, 49], [83, 104, 101, 101, 116, 50], [77, 121, 32, 68, 97, 116, 97]] : List Str) [83, 104, 101, 101, 116, 49] [78, 111, 112, 101, 33, 65, 49] = .error (.msg (.lit formulaErrorNAME)) := by
+  refine ⟨by decide +kernel, by decide +kernel, by decide +kernel, by decide +kernel,
+    by decide +kernel, by decide +kernel, by decide +kernel⟩
 
 /-! ## where the current code deviates from Excel: witnesses on the integer instance -/
 
